@@ -266,7 +266,10 @@ _EQV = [("contracts.ufunc", n) for n in _U.EQUIV_VARIANTS]
 PLANS["C09"].proofs += [("contracts.equivalence", n) for n in _EQ.ALL] + _EQV
 PLANS["C09"].lemmas += [("contracts.lemmas_c09", n) for n in _L9.ALL]
 PLANS["C04"].proofs += _EQV
-PLANS["C18"].proofs += [p for p in _EQV if "_out_" in p[1]] + [("contracts.equivalence", n) for n in _EQ.ALL]
+# C18 takes the frame clauses of the conversions themselves and of the in-place entry point; the
+# copying spellings are C09's (their frames are checked there)
+PLANS["C18"].proofs += [p for p in _EQV if "_out_" in p[1]] + [
+    ("contracts.equivalence", n) for n in _EQ.REFUSALS + _EQ.FORMULAS + _EQ.INPLACE_ENTRY]
 PLANS["C16"].proofs += [p for p in _EQV if "_out_" not in p[1]]
 
 # bounded stand-ins next to the proofs (never counted as proved): exhaustive / sampled drivers over
@@ -281,3 +284,9 @@ PLANS["C09"].explanation = ("proved: Equivalence.convert + every _convert branch
                             "__array_ufunc__ contracts of the configurations used; round trips and compositions are lemmas; "
                             "bounded: lorentz / effective_temperature values, entry points, float residuals")
 PLANS["C02"].proofs += [("contracts.parsing", "UnitDataEnvelope")]      # C02.P2: Pow / Mul combine their factors
+
+# hypot / remainder / fmod / multiply / divide on an offset temperature scale are refused (C08), before
+# anything is written (C18)
+_OFFR = [("contracts.ufunc", n) for n in _U.OFFSET_REFUSALS]
+PLANS["C08"].proofs += _OFFR
+PLANS["C18"].proofs += [p for p in _OFFR if "_out_" in p[1]]
